@@ -27,7 +27,7 @@ RULE = (
 )
 SPACE = {
     "quick": "pool: axis set {X} at 2 positions x 2 variables, {Y} at 1 position x 2 variables (so {X,Y} can be answered by a product), {X,Y} at 3 positions (two sharing one axis' position each, two using the same position words crosswise) x 2 variables; the registry is read through get_metric on the same object before and after every call; actions: every list of 1-3 variables at pairwise different positions in every order x overwrite T/F (+ constructor metrics= as first action); BFS to depth 3, key spellings str/tuple/list rotating",
-    "thorough": "{X} at 3 positions, {X,Y} at 3 positions; BFS to depth 3 (the larger pool has 4563 states; every state reached within 2 calls is expanded)",
+    "thorough": "{X} at 3 positions (the rest as quick); BFS to depth 3",
 }
 BOUNDS = {"quick": {"depth": 3}, "thorough": {"depth": 3}}
 ASSUMPTIONS = [
@@ -52,7 +52,7 @@ def pool(tier):
         vs.append(MG.make_var(f"dy_c{k}", ("Y",), {"Y": "center"}, pit))
     # (center,center) / (left,center) share Y's position, (center,center) / (center,left) share X's, and
     # (left,center) / (center,left) use the same position words crosswise: three different slots
-    pairs = [("center", "center"), ("left", "center"), ("center", "left")] + ([("left", "left")] if tier == "thorough" else [])
+    pairs = [("center", "center"), ("left", "center"), ("center", "left")]
     for px, py in pairs:
         for k in (1, 2):
             # the second variable of a slot stores its dimensions in the other order: same position, same slot
